@@ -88,6 +88,28 @@ def monitor(tr, case):
                     m = int(np.abs(gk - wk).argmax())
                     bad("kcal_equivalent_differs_from_allocation", "round %d %s month %d: reported %.8g kcal/person/day, allocation converts to %.8g" % (k + 1, n, m, gk[m], wk[m]),
                         round=k + 1, food=n, month=m)
+        # the fat and protein components of the same contributions, for the foods whose fat/protein follow their allocation by a
+        # fixed nutrient content (crops carry their own, separately allocated, fat and protein variables; meat and milk are C05's)
+        FD, PD = float(c["inputs"]["NUTRITION"]["FAT_DAILY"]), float(c["inputs"]["NUTRITION"]["PROTEIN_DAILY"])
+        facf, facp = 1e9 / (30.0 * FD * POP) * 100.0, 1e9 / (30.0 * PD * POP) * 100.0
+        sw = lp.val("seaweed_to_humans") if lp.has("seaweed_to_humans") else np.zeros(N)
+        nutrient = {
+            "stored_food": (alloc["stored_food"] * c.get("SF_FRACTION_FAT", 0), alloc["stored_food"] * c.get("SF_FRACTION_PROTEIN", 0)),
+            "seaweed": (sw * c.get("SEAWEED_FAT", 0), sw * c.get("SEAWEED_PROTEIN", 0)),
+            "scp": (alloc["scp"] * c.get("SCP_KCALS_TO_FAT_CONVERSION", 0), alloc["scp"] * c.get("SCP_KCALS_TO_PROTEIN_CONVERSION", 0)),
+            "fish": (np.asarray(t["fish"].to_humans.fat, float), np.asarray(t["fish"].to_humans.protein, float)),
+            "greenhouse": (np.asarray(t["greenhouse_crops"].fat, float), np.asarray(t["greenhouse_crops"].protein, float)),
+        }
+        for n, (af, ap) in nutrient.items():
+            f = getattr(ir, n)
+            for nm, got, want in (("fat", np.asarray(f.fat, float), af * facf), ("protein", np.asarray(f.protein, float), ap * facp)):
+                lim = 6e-4 if n == "stored_food" else 1e-9 * max(1.0, float(np.abs(want).max())) + 1e-9
+                d = np.abs(got - want)
+                rd["nutrient_components_compared"] = rd.get("nutrient_components_compared", 0) + 1
+                if got.shape != want.shape or d.max() > lim:
+                    m = int(d.argmax()) if got.shape == want.shape else 0
+                    bad("contribution_differs_from_allocation", "round %d %s %s month %d: reported %.8g%% but the allocation's %s converts to %.8g%%" % (k + 1, n, nm, m, got[m], nm, want[m]),
+                        round=k + 1, food=n, month=m, nutrient=nm)
         rd["foods_active"] = nact
         # (f) immediate + new stored = crops eaten
         crops_k = alloc["outdoor_crops"] * fac / 100.0 * KD
